@@ -68,6 +68,13 @@ public:
         {
             pdf_.emplace_back(in);
         }
+        else
+        {
+            // the first grid is needed again after `rollback(0)`
+            pdf_.push_back(this->results().front().pdf());
+        }
+
+        bins_ = pdf_.front().bins();
     }
 
     /// Returns the parameter `alpha`, which is used to refine the PDF of VEGAS after each
